@@ -26,7 +26,7 @@ CONSTANTS Type,     \* "SUM" | "RATIO" | "CHOICE" | "MISC"
           NSets,    \* number of SimulationResults objects
           MaxObs,   \* bound on the total number of observations held by all sets (state constraint)
           SkipOn,   \* BOOLEAN: some sets carry the runner's num_skipped_reps counter (own configuration: it multiplies the states)
-          Dev       \* [EmptyMergeAliases, MiscMergeAdds, SqSumNotMerged, SkipCounterCloned : BOOLEAN]
+          Dev       \* [EmptyMergeAliases, MiscMergeAdds, SqSumNotMerged, SkipCounterCloned, MiscEmptyOperandWins : BOOLEAN]
 
 (* ------------------------------ the code, step by step ---------------------------------- *)
 ZeroVal == IF Type = "CHOICE" THEN [i \in 1..NChoice |-> 0] ELSE RZero
@@ -52,7 +52,9 @@ AddVal(a, b) == IF Type = "CHOICE" THEN [i \in 1..NChoice |-> a[i] + b[i]] ELSE 
 ObjMerge(a, b) ==
   LET lists == [a EXCEPT !.vlist = IF Acc THEN @ \o b.vlist ELSE @, !.tlist = IF Acc THEN @ \o b.tlist ELSE @]
   IN IF Type = "MISC" /\ ~Dev.MiscMergeAdds
-       THEN [lists EXCEPT !.n = b.n, !.value = b.value, !.total = b.total, !.sum = b.sum, !.sqsum = b.sqsum]
+       THEN IF b.n = 0 /\ ~Dev.MiscEmptyOperandWins
+              THEN lists            \* an operand without observation has no "last observation": nothing to take over
+              ELSE [lists EXCEPT !.n = b.n, !.value = b.value, !.total = b.total, !.sum = b.sum, !.sqsum = b.sqsum]
        ELSE [lists EXCEPT !.n = @ + b.n, !.value = AddVal(@, b.value), !.total = RAdd(@, b.total),
                           !.sum = RAdd(@, b.sum),
                           !.sqsum = IF Dev.SqSumNotMerged THEN @ ELSE RAdd(@, b.sqsum)]
@@ -143,7 +145,8 @@ RejectedUpdate(s, kind) ==
   /\ last' = [op |-> "RejectedUpdate", s |-> s, kind |-> kind]
 
 \* a MISC result that never saw an observation has no "last observation": merging it IN is outside the law
-MiscGuard(t) == Type = "MISC" => sobs[t][Len(sobs[t])] # <<>>
+\* (before /repo 3e373b7 such a merge wiped the receiver's value: it is part of the law now, see Dev.MiscEmptyOperandWins)
+MiscGuard(t) == TRUE
 
 \* s[name][-1].merge(t[name][-1])
 MergeRes(s, t) ==
